@@ -49,13 +49,18 @@ def run_C09(ctx):
 def run_C11(ctx):
     corr_run(ctx, "tracerhist", ["tracerhist", "--n", n_cases(ctx, 2000, 100000)],
              "Model/KeyTree.v + CallTree.v vs vm.Tracer exported API (SaveStateKey/SaveStateChange/SaveCall/ExitCall/TransferWithRecord and every query)",
-             nontrivial=lambda c: c["registrations"] >= 2, has_oracle=True)
+             nontrivial=lambda c: c["registrations"] >= 2, has_oracle=True, oracle_exclude="C16")
 
 
 def run_C07(ctx):
     corr_run(ctx, "tracerhist", ["tracerhist", "--n", n_cases(ctx, 1500, 60000)],
              "Model/CallTree.v vs vm.Tracer SaveCall/ExitCall + CallTree accessors (Root/Current/FindCall/ParentOf/ChildrenOf)",
-             nontrivial=lambda c: c["calls"] >= 2, has_oracle=True)
+             nontrivial=lambda c: c["calls"] >= 2, has_oracle=True, oracle_exclude="C16")
+    ref_run(ctx, "depthlimit", ["fuzzcrash", "--class", "depth-limit", "--n", n_cases(ctx, 150, 3000)],
+            "self-recursive frames (all four call kinds, all forks) reaching the call depth limit, then CREATE/CREATE2/CALL refused in the deepest frames: "
+            "tree accessors checked against each other, no call left open, a follow-up top-level call is a new parentless node",
+            nontrivial=lambda c: c.get("steps", 0) >= 2000, oracle_prefix="C07")
+    _exec_run_late(ctx, "C07", 8, 500, 20000)
 
 
 def run_C01(ctx):
@@ -65,9 +70,13 @@ def run_C01(ctx):
 
 
 def run_C02(ctx):
-    ref_run(ctx, "diffref", ["diffref", "--mode", "gas", "--n", n_cases(ctx, 500, 40000)],
+    ref_run(ctx, "diffref", ["diffref", "--mode", "gas", "--n", n_cases(ctx, 800, 40000)],
             "per-step gas/cost stream, frame gas hand-over, refund and leftover gas vs go-ethereum v1.12.0, re-run at gas limits one below / on / one above intermediate gas values",
             nontrivial=lambda c: c.get("steps", 0) >= 3)
+
+
+def _exec_run_late(ctx, prefix, mask, quick, thorough):
+    exec_run(ctx, prefix, mask, quick=quick, thorough=thorough)
 
 
 def exec_run(ctx, prefix, mask, quick=1200, thorough=60000):
@@ -137,7 +146,7 @@ def run_C16(ctx):
             oracle_prefix="C16")
     corr_run(ctx, "tracerhist", ["tracerhist", "--n", n_cases(ctx, 1000, 50000)],
              "returned order of ChildrenIndices / IndicesOfChanges / call children vs the model's specified order",
-             nontrivial=lambda c: c["registrations"] >= 3, has_oracle=True)
+             nontrivial=lambda c: c["registrations"] >= 3, has_oracle=True, oracle_prefix="C16")
 
 
 def run_C18(ctx):
